@@ -12,7 +12,7 @@
          (linfa-bayes), `labels()` followed by a sort, integer count sums, the minimum over clusters
          of the silhouette score, the cluster numbering of linfa-hierarchical, and the
          class-frequency sums of the tree impurity.  `_old` variants are the rules before the
-         repairs F11 / F19 / F16 (kept to show what the permutation quantifier excludes).
+         repairs F11 / F19 / F16 / F41 (kept to show what the permutation quantifier excludes).
 
     Definitions only; polymorphic in NumOps where numeric. *)
 From Coq Require Import List NArith Bool.
@@ -164,10 +164,14 @@ Definition min_over (vals : list F) : option F :=
                           | Some mn => if ltb o v mn then Some v else Some mn
                           end) vals None.
 
-(* tree impurity: `class_freq.values()` summed in map order *)
+(* tree impurity of a list of class weights: n = sum, 1 - sum (x / n)^2, both sums sequential *)
 Definition gini (freqs : list F) : F :=
   let n := seq_sum o freqs in
   sub o (one o) (seq_sum o (map (fun x => let p := div o x n in mul o p p) freqs)).
+(* linfa-trees gini_impurity (after repair F41): `sorted_frequencies` = weights in ascending class order *)
+Definition gini_impurity (entries : list (N * F)) : F := gini (map snd (sort_by_key entries)).
+(* before F41: `class_freq.values()` in map order *)
+Definition gini_impurity_old (entries : list (N * F)) : F := gini (map snd entries).
 End Hash.
 
 (* `labels()` (hash-set order) followed by `sort_unstable()` as in naive Bayes / confusion matrix *)
